@@ -24,10 +24,13 @@ CLAIMED["C03"] = {
 CLAIMED["C10"] = {
     "text": "C10_options_are_documented: for every configuration (3 dash variants x 3 generation modes x 2 nested modes), every name, destination "
             "path and alias list, the model's registered spellings are exactly the documented set; no spelling registered twice; positional "
-            "fields addressed by their destination only. option_strings is hand-modelled and tied by a correspondence that enumerates all "
+            "fields addressed by their destination only. FieldWrapper.option_strings is tied to the model by a THEOREM: its ast is dumped on every "
+            "run into a deep embedding (Model/MiniPy.v, Gen/FactsOptStrSrc.v) and C10_source_is_model proves that interpreting the regenerated "
+            "body equals the functional model for all configurations and field wrappers (so C10_source_options_are_documented is about the "
+            "current source text); in addition a correspondence enumerates all "
             "18 configurations x both APIs x trees of depth <= 3, parsing every registered spelling and probing spellings of other modes.",
     "note": COMMON_NOTE + "argparse abbreviation matching is excluded from the 'no other spelling' probe.",
-    "technique": "Coq proof + exhaustive-over-configurations vm_compute model/impl correspondence",
+    "technique": "Coq proof incl. regenerated-source bridge (deep embedding) + exhaustive-over-configurations vm_compute model/impl correspondence",
 }
 CLAIMED["C06"] = {
     "text": "Theorems for all schemas/layers (induction on trees): dict_union is a right-biased leaf-wise merge (C06_dict_union_lookup); the final "
